@@ -307,20 +307,25 @@ def run_check(ctx):
     def random_chain():
         return [validate_trace(ctx, drv, cn, depth, "r%d" % i, seed) for i, (cn, seed) in enumerate(chunks)]
 
-    def design_chain():
-        # small-number universes, exhaustive; and the strict forms of the invariants, for which TLC must produce the
-        # counterexamples that became the named deviations
-        runs = [vlib.tlc_must_pass(ctx, "MCEvmValue", c, workers=6, timeout=6000) for c in design]
-        sruns = [vlib.tlc(ctx, "MCEvmValue", c, workers=4, timeout=3000) for c, _ in strict]
-        return runs, sruns
+    def design_chain(cfgs):
+        # small-number universes, exhaustive
+        return [vlib.tlc_must_pass(ctx, "MCEvmValue", c, workers=6, timeout=6000) for c in cfgs]
 
-    with ThreadPoolExecutor(max_workers=4) as ex:
+    def strict_chain():
+        # the strict forms of the invariants: TLC must produce the counterexamples that became the named deviations
+        return [vlib.tlc(ctx, "MCEvmValue", c, workers=4, timeout=3000) for c, _ in strict]
+
+    with ThreadPoolExecutor(max_workers=6) as ex:
         fe = [ex.submit(emit_chain, pl) for pl in emits]
         fr = ex.submit(random_chain)
-        fd = ex.submit(design_chain)
+        big = [c for c in design if "big" in c]
+        fd = [ex.submit(design_chain, big), ex.submit(design_chain, [c for c in design if c not in big])]
+        fs = ex.submit(strict_chain)
         emitted = [e for f in fe for e in f.result()]
         traces = fr.result()
-        runs, sruns = fd.result()
+        runs = fd[0].result() + fd[1].result()
+        design = big + [c for c in design if c not in big]
+        sruns = fs.result()
 
     states = sum(r.distinct for r in runs)
     trans = sum(r.generated for r in runs)
